@@ -747,6 +747,11 @@ func TestVerif_C21(t *testing.T) {
 		c.Assume("a peer stream counts as no longer open once its final size is known to the conn (FIN or RESET_STREAM received) and, for bidirectional streams, a packet carrying the conn's FIN or RESET_STREAM was acknowledged; this is the weakest reading of 'closed', so the simultaneous-streams bound is not over-strict")
 		c.Assume("no packet loss or reordering in this check (C20/C32 cover loss); the advertised limit is the one in frames the scripted peer has actually read; the other stream type is fixed at 1 remote / 0 local streams")
 
+		if s, _ := c.Shard(); s == 0 {
+			for _, mo := range []int64{0, 1, 2, 3, 8, 100} {
+				c21Unit(c, mo, vx.Pick(c, 8, 12))
+			}
+		}
 		check := func(w *vx.W, cs c21Case) { c21Exec(c, w, cs) }
 		for _, p := range c21Parts(c) {
 			vx.Enumerate(c, p.name, vx.Opts{Serial: true, Crumb: true}, func(yield0 func(c21Case) bool) {
@@ -758,11 +763,6 @@ func TestVerif_C21(t *testing.T) {
 				}
 			}, check)
 			c.Note("depth."+p.name, p.depth)
-		}
-		if s, _ := c.Shard(); s == 0 && !c.Expired() {
-			for _, mo := range []int64{0, 1, 2, 3, 8, 100} {
-				c21Unit(c, mo, vx.Pick(c, 8, 12))
-			}
 		}
 	})
 }
